@@ -1128,6 +1128,9 @@ class SeqV(Val):
   def make_iter(self, ctx):
     return ctx.alloc(IterCell(self.seq, self.codec, 0))
 
+  def to_list(self, ctx):
+    return ctx.alloc(ListCell(self.seq, self.codec))
+
   def truth(self, ctx):
     return z3.Length(self.seq) != 0
 
